@@ -251,6 +251,9 @@ pub fn run_schedule(sched: Schedule) -> Vec<Obs> {
     }
     let sched = std::sync::Arc::new(sched);
     let nw = sched.workers.max(1);
+    // tell the environment shim that start-up is over: from here on, every entropy / clock / pid /
+    // environment query is made on behalf of the code under simulation (or of this loop, which makes none)
+    let _ = std::env::var_os("VERIF_MARK_START");
     let slots: Vec<&'static Slot> = (0..nw).map(|_| Slot::new()).collect();
     let mut workers: Vec<Option<Worker>> = (0..nw).map(|w| Some(spawn_worker(w, 0, slots[w], &sched))).collect();
     let mut out = Vec::with_capacity(sched.requests.len());
